@@ -77,8 +77,9 @@ fn show_model(m: &GitStyle) -> String {
     format!("fg={:?} bg={:?} effects={{{}}}", m.fg, m.bg, names.join(","))
 }
 
+/// "rejected with the error that names that word": the word as written
 fn same_word(a: &str, b: &str) -> bool {
-    a == b || a.to_lowercase() == b.to_lowercase()
+    a == b
 }
 
 /// Compare one input with the model.
@@ -496,7 +497,13 @@ fn main_check(ctx: &Ctx) -> Outcome {
         // disputed separators (no-panic only) and non-separators (one unknown word)
         for a in words {
             for b in words {
-                for s in ["\x0b", "\u{a0}", "\u{85}", "\u{2003}", "\u{3000}", "\u{2028}", "\u{feff}", "", ",", ";", "\0", "\x1f", "\u{200b}", "/"] {
+                for s in [
+                    // every Unicode White_Space character (separators) ...
+                    "\t", "\n", "\x0b", "\x0c", "\r", " ", "\u{85}", "\u{a0}", "\u{1680}", "\u{2000}", "\u{2001}", "\u{2002}", "\u{2003}", "\u{2004}", "\u{2005}",
+                    "\u{2006}", "\u{2007}", "\u{2008}", "\u{2009}", "\u{200a}", "\u{2028}", "\u{2029}", "\u{202f}", "\u{205f}", "\u{3000}",
+                    // ... and non-separators
+                    "\u{feff}", "", ",", ";", "\0", "\x1f", "\u{200b}", "/", "\u{180e}",
+                ] {
                     cases.push(format!("{a}{s}{b}"));
                     cases.push(format!("{a} {s} {b}"));
                     cases.push(format!("{s}{a} {b}{s}"));
@@ -628,9 +635,9 @@ fn main_check(ctx: &Ctx) -> Outcome {
         let r = guarded(|| anstyle_git::parse(s));
         out.push_sample(json!({"input": s, "model": format!("{:?}", git::parse(s)), "impl": format!("{r:?}")}));
     }
-    out.assume("'+' sign, '-0' and leading zeros on decimal colour numbers; words that only match through Unicode case folding; non-ASCII digits; VT / NEL / NBSP / Unicode spaces as separators: unspecified, only 'no panic' is checked");
+    out.assume("'+' sign, '-0' and leading zeros on decimal colour numbers; words that only match through Unicode case folding; non-ASCII digits: unspecified, only 'no panic' is checked. Separators are the Unicode White_Space characters (\"any whitespace\")");
     out.assume("'#rgb' may denote either (r,g,b) or (rr,gg,bb): the statement does not say how the short form expands");
-    out.assume("when several words are offending the error may name any of them (with the variant belonging to that word); the named word is compared modulo letter case; the error's `style` field is not checked");
+    out.assume("when several words are offending the error may name any of them (with the variant belonging to that word); the named word must be the word as written; the error's `style` field is not checked");
     out.assume("named colours / decimal numbers are compared modulo 'indices 0-15 of the 256 palette are the 16-colour palette'; the round trip demands Style equality");
     out.assume("expressible styles: fg/bg in {none, 8 names, 0..=255, RGB lattice {0,1,9,10,160,255}^3}, attributes any subset of the 7; no underline colour");
     out
